@@ -57,7 +57,26 @@ func runC12(c *Ctx) {
 			ok, bad := allOrigins(parent, oFieldLoad("rt.ClientOperation", "Context", nil), oFieldLoad("rt/client.Runtime", "Context", nil), oCall(-1, "context.Background"))
 			c.obI("R12.1", cc, "parent-context", ok, "the parent context is the operation's, else the transport's, else Background", "origin "+describeOrigin(bad))
 			if calleeName(cc.Common()) == "context.WithTimeout" {
-				c.obI("R12.1", cc, "timeout-is-request-timeout", vFieldLoadO(clientReqT, "timeout")(cc.Common().Args[1]), "the deadline is the request's timeout", "")
+				okT := vFieldLoadO(clientReqT, "timeout")(cc.Common().Args[1])
+				if !okT {
+					// the request builder hands the timeout back itself: every value it returns there is the request's timeout (or 0 on errors)
+					const chr = "(*rt/client.Runtime).createHttpRequest"
+					if viaBuilder, _ := allOrigins(cc.Common().Args[1], oCallT("time.Duration", chr)); viaBuilder {
+						okT = true
+						cf := p.Fn(chr)
+						for _, r := range realReturns(cf) {
+							for i := 0; i < len(r.Results); i++ {
+								if typeStr(r.Results[i].Type()) != "time.Duration" {
+									continue
+								}
+								if okR, _ := allOrigins(resOf(r, i), oFieldLoad(clientReqT, "timeout", nil), func(o Origin) bool { k, isK := constInt(o.V); return isK && k == 0 }); !okR {
+									okT = false
+								}
+							}
+						}
+					}
+				}
+				c.obI("R12.1", cc, "timeout-is-request-timeout", okT, "the deadline is the request's timeout", "")
 			}
 		}
 		// precedence: runtime context only when the operation has none
@@ -76,7 +95,7 @@ func runC12(c *Ctx) {
 		_, a := callArgs(&do.Call)
 		okReq, _ := allOrigins(a[0], oCallWhere(-1, "(*net/http.Request).WithContext", func(w *ssa.Call) bool {
 			okk, _ := allOrigins(w.Call.Args[1], oCall(0, "context.WithTimeout", "context.WithCancel"))
-			okq, _ := allOrigins(w.Call.Args[0], oCall(1, "(*rt/client.Runtime).createHttpRequest"))
+			okq, _ := allOrigins(w.Call.Args[0], oCallT("*net/http.Request", "(*rt/client.Runtime).createHttpRequest"))
 			return okk && okq
 		}))
 		c.obI("R12.1", do, "request-under-derived-context", okReq, "the request is sent under the derived (deadline-carrying) context", "")
@@ -85,9 +104,22 @@ func runC12(c *Ctx) {
 		// R12.2
 		derr := resultOf(do, 1)
 		var closes []ssa.Instruction
+		isRespBody := vFieldLoad("net/http.Response", "Body", vOrigins(oIsValue(resultOf(do, 0))))
 		for _, df := range defersIn(sub) {
-			if df.Call.IsInvoke() && df.Call.Method.Name() == "Close" && vFieldLoad("net/http.Response", "Body", vOrigins(oIsValue(resultOf(do, 0))))(df.Call.Value) {
+			if df.Call.IsInvoke() && df.Call.Method.Name() == "Close" && isRespBody(df.Call.Value) {
 				closes = append(closes, df)
+				continue
+			}
+			// defer func() { _ = body.Close() }() with body := res.Body captured when the defer is registered
+			if body := deferredBody(df); body != nil && body.Parent() != nil {
+				for _, ci := range allCalls(body) {
+					if !ci.Common().IsInvoke() || ci.Common().Method.Name() != "Close" || !dominatesAllReturns(body, ci) {
+						continue
+					}
+					if capturedValueIs(ci.Common().Value, isRespBody) {
+						closes = append(closes, df)
+					}
+				}
 			}
 		}
 		c.obF("R12.2", sub, "defers-body-close", len(closes) == 1, "Submit defers closing the response body", fmt.Sprintf("%d", len(closes)))
@@ -209,11 +241,14 @@ func runC12(c *Ctx) {
 	// R12.4 goroutine
 	var fileCloser, pipeCloser *ssa.Defer
 	for _, d := range defersIn(g) {
-		mc, ok := d.Call.Value.(*ssa.MakeClosure)
-		if !ok {
+		if calleeName(&d.Call) == "(*io.PipeWriter).Close" {
+			pipeCloser = d // defer pw.Close()
 			continue
 		}
-		df := mc.Fn.(*ssa.Function)
+		df := deferredBody(d)
+		if df == nil {
+			continue
+		}
 		// file closer: ranges over r.fileFields and closes every entry
 		for _, ml := range mapLoops(df, vFieldLoad(clientReqT, "fileFields", nil)) {
 			for _, sl := range sliceLoops(df, vOrigins(oIsValue(extractOf(ml.Next, 2)))) {
@@ -467,7 +502,7 @@ func failsPipeWith(in ssa.Instruction, ev ssa.Value) bool {
 		}
 		for _, k := range closeWithErrorCalls(callee) {
 			_, a := callArgs(k.Common())
-			if a[0] == ssa.Value(callee.Params[i]) && dominatesAllReturns(callee, k) {
+			if a[0] == ssa.Value(callee.Params[i]) && alwaysCallsUnlessNilReceiver(callee, k) {
 				return true
 			}
 		}
@@ -489,7 +524,7 @@ func failsPipe(in ssa.Instruction) bool {
 		return false
 	}
 	for _, k := range closeWithErrorCalls(callee) {
-		if dominatesAllReturns(callee, k) {
+		if alwaysCallsUnlessNilReceiver(callee, k) {
 			return true
 		}
 	}
@@ -514,4 +549,67 @@ func closeWithErrorCalls(f *ssa.Function) []ssa.CallInstruction {
 		}
 	}
 	return out
+}
+
+// deferredBody returns the function a defer statement runs when it has a body in the repository: the function literal,
+// or the library function/method deferred directly.
+func deferredBody(d *ssa.Defer) *ssa.Function {
+	if mc, ok := d.Call.Value.(*ssa.MakeClosure); ok {
+		if f, isFn := mc.Fn.(*ssa.Function); isFn {
+			return f
+		}
+	}
+	if sc := d.Call.StaticCallee(); sc != nil && sc.Blocks != nil && isRepoPath(fnPkgPath(sc)) {
+		return sc
+	}
+	return nil
+}
+
+// capturedValueIs: v, evaluated inside a function literal, is (a load of) a captured variable every value of which
+// satisfies m in the enclosing function.
+func capturedValueIs(v ssa.Value, m VPred) bool {
+	if m(v) {
+		return true
+	}
+	var fv *ssa.FreeVar
+	if ad, ok := derefLoad(v); ok {
+		fv, _ = ad.(*ssa.FreeVar)
+	} else {
+		fv, _ = v.(*ssa.FreeVar)
+	}
+	if fv == nil {
+		return false
+	}
+	if cell := freeVarCell(fv); cell != nil {
+		sts := storesToCell(cell)
+		if len(sts) == 0 {
+			return false
+		}
+		for _, st := range sts {
+			if !m(st.Val) {
+				return false
+			}
+		}
+		return true
+	}
+	if b := freeVarBinding(fv); b != nil {
+		return m(b)
+	}
+	return false
+}
+
+// alwaysCallsUnlessNilReceiver: every path through f passes call k — except paths on which k's receiver (a parameter
+// of f) was tested to be nil (there is no pipe to fail).
+func alwaysCallsUnlessNilReceiver(f *ssa.Function, k ssa.CallInstruction) bool {
+	recv, _ := callArgs(k.Common())
+	var cut EdgePred
+	if prm, ok := recv.(*ssa.Parameter); ok && prm.Parent() == f {
+		cut = factNil(vIs(prm), true)
+	}
+	for _, r := range realReturns(f) {
+		if pathExists(f, nil, r, cut, isOneOf(k)) {
+			return false
+		}
+	}
+	return true
 }
